@@ -943,6 +943,25 @@ def parse_instruction(s, mod):
                     break
                 p.expect(',')
         ins.b = args
+        if op == 'call' and '[ "' in s:
+            # operand bundles, e.g.  [ "align"(i8* %p, i64 32) ]  on llvm.assume
+            bundles = []
+            while not p.at_end() and p.peek()[1] != '[':
+                p.next()
+            if p.accept('['):
+                while not p.accept(']'):
+                    tag = p.next()[1].strip('"')
+                    p.expect('(')
+                    bargs = []
+                    if not p.accept(')'):
+                        while True:
+                            bargs.append(p.parse_tv())
+                            if p.accept(')'):
+                                break
+                            p.expect(',')
+                    bundles.append((tag, bargs))
+                    p.accept(',')
+            ins.x = bundles
         if op == 'invoke':
             # skip fn attrs up to 'to'
             while p.peek()[1] != 'to':
